@@ -129,10 +129,14 @@ def saTok (st : St) (t : String) : Option (Array Nat) :=
 
 /-- `suffix a old new` (= `suffixBlk m a old new` for every `m`), evaluated once per case and
 suffix-array token. -/
-def suffixOnce (st : St) (saTxt : String) (a : Array Nat) : Except Err Patch :=
+def suffixOnce (st : St) (blk : Option Nat) (saTxt : String) (a : Array Nat) : Except Err Patch :=
+  let run : Unit → Except Err Patch := fun _ =>
+    match blk with
+    | some m => suffixBlk m a st.old st.new
+    | none => suffix a st.old st.new
   match st.sfx with
-  | some (k, r) => if k == saTxt then r else suffix a st.old st.new
-  | none => suffix a st.old st.new
+  | some (k, r) => if k == saTxt then r else run ()
+  | none => run ()
 
 /-- the state remembers the suffix builder's answer. -/
 def noteSfx (st : St) (key : List String) (r : Except Err Patch) : St :=
@@ -145,10 +149,10 @@ def noteSfx (st : St) (key : List String) (r : Except Err Patch) : St :=
 def builderOf (st : St) : List String → Option (List String × (Unit → Except Err Patch) × List String)
   | "simple" :: rest => some (["simple"], fun _ => simple st.new, rest)
   | "chunked" :: blk :: rest => blk.toNat?.map fun b => (["chunked", blk], fun _ => chunked b st.old st.new, rest)
-  | "suffix" :: sa :: rest => (saTok st sa).map fun a => (["suffix", sa], fun _ => suffixOnce st sa a, rest)
+  | "suffix" :: sa :: rest => (saTok st sa).map fun a => (["suffix", sa], fun _ => suffixOnce st none sa a, rest)
   | "suffixb" :: blk :: sa :: rest =>
     match blk.toNat?, saTok st sa with
-    | some _, some a => some (["suffixb", blk, sa], fun _ => suffixOnce st sa a, rest)
+    | some b, some a => some (["suffixb", blk, sa], fun _ => suffixOnce st (some b) sa a, rest)
     | _, _ => none
   | _ => none
 
